@@ -83,6 +83,10 @@ CLAIMED = {
             "Lean 4 theorems over a flat path->entry HDF5 file model with an invariant WF preserved by every operation (copy_reads_equal, copy_frame, mv_frame, mv_source_gone_partial, list_exact_history, isCooler_total, create_append_frame, create_w_replaces, recreate_replaces) + exhaustive short histories and seeded random histories against real files",
             "Proof: after a successful cp/ln/ln -s the destination reads what the source read; whatever the outcome only the destination file changes and nothing outside the destination's footprint (and the source for mv) changes; same-file mv removes the source; listing is exact for link-free files after any history; the recognition test is total; append-mode creation keeps all other collections and unrelated attributes, write mode replaces the file, re-creation replaces the collection. D4 (cross-file mv keeps the source) and D5 (external links listed under the target's path) are recorded findings proved as theorems about the model of the current code and matched through variant oracles.",
             "Trusted: Lean kernel; model tied by correspondence; HDF5 link resolution/Group.copy are primitives of the file model; some h5py corners end a history without a verdict (counted). Partial: mv through links, list_exact with soft links, uri_slash (proved in C19's model)."),
+    "C04": ("DESIGN.md §5 C04",
+            "Lean 4 theorems (extent_var_correct, extent_fixed_correct, extent_fixed_sound via C20.getBinsize_truthful, extent_empty_*, shortest_cover, gsFetch_correct, parseRegion_bounds, extent_table_correct, pixelsFetch_correct) + exhaustive all-regions differential correspondence on every small segmentation",
+            "Proof: on every valid table, for every chromosome and every range 0<=s<e<=L the selected run is exactly the bins overlapping the range (never a bin of another chromosome), on the variable path by searchsorted lemmas and on the fixed path by uniformity, which a reported bin size guarantees; empty ranges select at most the bin containing the position; the pixel fetch is the index slice on the extent; GenomeSegmentation.fetch/bedslice select the same set. Every region of every small table is run through extent/offset/bins.fetch/pixels.fetch/matrix.fetch and judged by Lean.",
+            "Trusted: Lean kernel; model tied by correspondence; float64 division for floor/ceil idealised as integer division (sampled up to 2^40); numpy searchsorted primitive."),
 }
 
 NOT_YET = {}
